@@ -288,7 +288,8 @@ def run(ctx):
             continue
         if c["errors"] != 0:
             hist["not_completed"] += 1
-            key = (c["err"].strip().splitlines() or ["?"])[0][:70]
+            key = next((ln.strip() for ln in c["err"].splitlines() if len(ln.strip()) > 10), "?")
+            key = " ".join(key.split())[:70]
             hist["errors"][key] = hist["errors"].get(key, 0) + 1
             continue
         hist["completed_by_option"][option_key(s)] = hist["completed_by_option"].get(option_key(s), 0) + 1
@@ -390,8 +391,9 @@ def replay(ctx, data):
 
 MANIFEST = dict(
     technique="Lean 4 theorems on an executable model of the surface rows of residuals/check_residuals/model, of "
-              "add_potential_factor/add_cd_music_factors, gammas(case 6)/molalities and the EDL read-outs; correspondence: the "
-              "model re-evaluates every relation on in-process dumps of real runs",
+              "add_potential_factor/add_cd_music_factors, gammas(case 6)/molalities and the EDL read-outs; translator "
+              "(tools/gen_surfconst.py: constants and hard-coded factors of the source → Gen/SurfConst.lean, theorem "
+              "source_constants); correspondence: the model re-evaluates every relation on in-process dumps of real runs",
     text="Theorems (Properties/C20.lean, for all inputs/histories, over Rat with uninterpreted sqrt/sinh/exp/ln): gate_surface* "
          "(any solver step, any iteration count: model() completes without error ⇒ site balance within tol·sites, |GC(ψ)−σ|, "
          "|C·ψ−σ|, CD-MUSIC rows within tol), potential_factor_mass_action and cd_music_factor_mass_action (rewritten equation "
